@@ -349,7 +349,11 @@ pub fn build(quick: bool) -> Vec<Scenario> {
             continue;
         }
         v.push(mk_lag::<M>(off, pre, &[1, 1], "BB").bound(d));
-        v.push(mk_lag::<M>(off, pre, &[2], "BP").bound(d));
+        // (with two blocks queued a single producer and the consumer never touch the same words in different orders:
+        // the member would be vacuous by the rule of the self-check)
+        if pre != 2 * mb - 1 {
+            v.push(mk_lag::<M>(off, pre, &[2], "BP").bound(d));
+        }
     }
     if !quick {
         // both allocator modes and the descending base policy on the boundary members
